@@ -70,6 +70,9 @@ pub fn run(prop: &'static str, tier: Tier) -> i32 {
         let (s, t) = super::c13::duplicate_checks(&ctx, tier);
         extra_states += s;
         extra_transitions += t;
+        let (s, t) = super::c13::cross_version_copy(&ctx, tier);
+        extra_states += s;
+        extra_transitions += t;
     }
     ctx.eval(stats.transitions + stats.stale_calls + extra_transitions);
     for k in stats.outcomes.keys() {
